@@ -7,6 +7,7 @@ import (
 	"bytes"
 	"encoding/json"
 	"fmt"
+	"path/filepath"
 	"strings"
 	"testing"
 	"time"
@@ -21,9 +22,13 @@ type C14Plan struct {
 	Branches int       `json:"branches"` // staged branches 1..4
 	Existing []bool    `json:"existing"` // per branch: does it exist before the transaction
 	Op       string    `json:"op"`       // commit | discard
-	Between  bool      `json:"between,omitempty"` // an ordinary commit lands on an already-moved branch between the interrupted run and the re-run
-	Mode     string    `json:"mode"`     // crash | error | sequence
-	UUIDSeed uint64    `json:"uuid_seed"`
+	// MovedBefore: between staging and `transaction commit|discard` an ordinary commit lands on staged branch
+	// MovedBranch: "other" data (the staged commit's parent is then no longer the head) or the "same" data that is staged
+	MovedBefore string `json:"moved_before,omitempty"`
+	MovedBranch int    `json:"moved_branch,omitempty"`
+	Between     bool   `json:"between,omitempty"` // an ordinary commit lands on an already-moved branch between the interrupted run and the re-run
+	Mode        string `json:"mode"`              // crash | error | sequence
+	UUIDSeed    uint64 `json:"uuid_seed"`
 }
 
 func init() {
@@ -38,6 +43,9 @@ func init() {
 				p.Existing = append(p.Existing, r.Chance(0.6))
 			}
 			p.Between = p.Op == "commit" && p.Branches >= 2 && r.Chance(0.3)
+			if r.Chance(0.25) {
+				p.MovedBefore, p.MovedBranch = Pick(r, []string{"other", "same"}), r.Intn(p.Branches)
+			}
 			return p
 		},
 		Exec: execC14,
@@ -137,6 +145,24 @@ func execC14(t *testing.T, raw json.RawMessage, res *Result) {
 			return
 		}
 		stagedTables[b] = c.Table
+	}
+	if p.MovedBefore != "" {
+		if p.MovedBranch < 0 || p.MovedBranch >= len(names) || (p.MovedBefore != "other" && p.MovedBefore != "same") {
+			res.Invalid("moved_before")
+			return
+		}
+		b := names[p.MovedBranch]
+		f := filepath.Join(n.Root, fmt.Sprintf("new%d.csv", p.MovedBranch)) // the staged data
+		if p.MovedBefore == "other" {
+			_, _, nr := ApplyEdits(cols, pk, rows, []Edit{{Op: "addrow", Cells: txRow(cols, pk, 55)}})
+			f = n.WriteFile("moved.csv", CSVText(cols, nr, ','))
+		}
+		if _, ok := must("commit", b, f, "ordinary commit after staging", "-p", pkArg); !ok {
+			return
+		}
+		rm, _ := n.Refs()
+		oldHeads[b] = rm["heads/"+b]
+		res.probe("branch_moved_after_staging_"+p.MovedBefore, 1)
 	}
 	pre := n.Capture()
 
